@@ -156,6 +156,19 @@ func pathFinish(s *Summary) {
 				continue
 			}
 			regNorm := tokStr(tp.Reg[st])
+			// InterceptAll(p): every request is resolved as a request for p, and p is normalised like p was when it was registered
+			if strings.TrimSpace(p) != "" && !strings.ContainsAny(p, "{[") {
+				desc := map[string]any{"kind": "path", "aspect": "reach", "strict": st == "T", "registered": p, "request": "/zz/any",
+					"what": fmt.Sprintf("route registered as %q on a router with InterceptAll(%q), strict=%s: a request for /zz/any does not reach it", p, p, st)}
+				guard(s, desc, tp.P, func() {
+					ri := newRouter(append(strictOpts(st), rux.InterceptAll(p))...)
+					ri.Add(p, nopHandler, "GET")
+					s.Compared++
+					if rt, _, _ := ri.Match("GET", "/zz/any"); rt == nil {
+						s.mismatch(desc, tp.P)
+					}
+				})
+			}
 			for _, tq := range pathSt.texts {
 				q := tokStr(tq.P)
 				want := regNorm == tokStr(tq.Req[st])
